@@ -121,6 +121,11 @@ func LoadModule(rel, tags, goarch string) (*Module, error) {
 	sort.Slice(m.Pkgs, func(i, j int) bool { return m.Pkgs[i].PkgPath < m.Pkgs[j].PkgPath })
 	for _, p := range m.Pkgs {
 		for _, f := range p.Syntax {
+			pruneNoEffect(f, p.TypesInfo)
+		}
+	}
+	for _, p := range m.Pkgs {
+		for _, f := range p.Syntax {
 			for _, d := range f.Decls {
 				fd, ok := d.(*ast.FuncDecl)
 				if !ok || fd.Body == nil {
@@ -286,4 +291,98 @@ func (m *Module) Position(p token.Pos) string {
 		rel = pos.Filename
 	}
 	return fmt.Sprintf("%s:%d", rel, pos.Line)
+}
+
+// pruneNoEffect removes, from the in-memory syntax trees only, statements that
+// cannot affect any property: blank assignments of side-effect-free
+// expressions (`_ = x`), empty statements, and calls to a logger's Log/Logf
+// method whose arguments contain no channel receive and no function literal.
+// Every rule therefore sees the same function whether or not a debug line was
+// added; positions of the remaining nodes are unchanged.
+func pruneNoEffect(f *ast.File, info *types.Info) {
+	pure := func(e ast.Expr) bool {
+		ok := true
+		ast.Inspect(e, func(x ast.Node) bool {
+			switch n := x.(type) {
+			case *ast.FuncLit:
+				ok = false
+			case *ast.UnaryExpr:
+				if n.Op == token.ARROW {
+					ok = false
+				}
+			}
+			return ok
+		})
+		return ok
+	}
+	noEffect := func(st ast.Stmt) bool {
+		switch s := st.(type) {
+		case *ast.EmptyStmt:
+			return !s.Implicit
+		case *ast.AssignStmt:
+			if s.Tok != token.ASSIGN || len(s.Lhs) != len(s.Rhs) {
+				return false
+			}
+			for i, l := range s.Lhs {
+				id, ok := l.(*ast.Ident)
+				if !ok || id.Name != "_" {
+					return false
+				}
+				// only plain values: a call could have effects
+				switch unparen(s.Rhs[i]).(type) {
+				case *ast.Ident, *ast.BasicLit, *ast.SelectorExpr:
+				default:
+					return false
+				}
+			}
+			return true
+		case *ast.ExprStmt:
+			call, ok := s.X.(*ast.CallExpr)
+			if !ok {
+				return false
+			}
+			sel, ok := call.Fun.(*ast.SelectorExpr)
+			if !ok || (sel.Sel.Name != "Log" && sel.Sel.Name != "Logf") {
+				return false
+			}
+			fn, ok := info.Uses[sel.Sel].(*types.Func)
+			if !ok {
+				return false
+			}
+			sig, ok := fn.Type().(*types.Signature)
+			if !ok || sig.Recv() == nil || sig.Results().Len() != 0 {
+				return false
+			}
+			if !strings.Contains(strings.ToLower(sig.Recv().Type().String()), "logger") {
+				return false
+			}
+			for _, a := range call.Args {
+				if !pure(a) {
+					return false
+				}
+			}
+			return pure(sel.X)
+		}
+		return false
+	}
+	filter := func(list []ast.Stmt) []ast.Stmt {
+		out := list[:0:0]
+		for _, st := range list {
+			if !noEffect(st) {
+				out = append(out, st)
+			}
+		}
+		return out
+	}
+	ast.Inspect(f, func(x ast.Node) bool {
+		switch n := x.(type) {
+		case *ast.BlockStmt:
+			n.List = filter(n.List)
+		case *ast.CaseClause:
+			n.Body = filter(n.Body)
+		case *ast.CommClause:
+			n.Body = filter(n.Body)
+		}
+		return true
+	})
 }
